@@ -290,8 +290,16 @@ def run_case(case, ctx):
     for ob in obs:
         by_name.setdefault(ob.name, []).append(ob)
     pending = {}  # name -> messages of candidates that did not match (shared names: a violation only if NO candidate matches)
-    for ob in obs:
-        vals = np.concatenate([np.atleast_1d(ob.apply(st, s.clone()).detach().numpy()) for s in states]).astype(float)
+    for ob, pick_ in zip(obs, picks):
+        if pick_ == "SWAP":
+            # pairs each sample with its neighbour in the batch by design: evaluated on the batches as drawn
+            vals = np.concatenate([np.atleast_1d(ob.apply(st, s.clone()).detach().numpy()) for s in states]).astype(float)
+        else:
+            # "one pass over every drawn sample": the value of a sample is its own, evaluated one sample at a time - it does
+            # not depend on which other chains happened to share its batch
+            vals = np.concatenate([np.atleast_1d(ob.apply(st, s[r_:r_ + 1].clone()).detach().numpy()) for s in states
+                                   for r_ in range(s.shape[0])]).astype(float)
+            ctx.count("samples_evaluated_one_at_a_time", len(vals))
         wm, wv, wn = one_pass(vals)
         got = results.get(ob.name)
         if not isinstance(got, dict) or not {"mean", "variance", "std_error", "num_samples"} <= set(got):
